@@ -160,6 +160,45 @@ def tmpl_hidden_input(r, lines):
     return steps
 
 
+def tmpl_kill_line(r, lines):
+    # kill-line with the cursor inside the query, then edits at the cut point, then yank: the kill buffer
+    # must not share memory with the query
+    if r.random() < 0.5:
+        steps = [[('change-query', r.choice(['abcdef', 'hello world', 'foo bar baz']))]]
+        steps += [[('backward-char', None)] for _ in range(r.randint(2, 4))]
+        steps += [[('kill-line', None)], [('put', r.choice(['XY', 'q', 'XYZ']))], [('yank', None)]]
+    else:
+        steps = [[('change-query', r.choice(['hello world', 'one two three', 'a-b c_d']))], [('backward-word', None)], [('kill-line', None)],
+                 [('beginning-of-line', None)], [('yank', None)], [('yank', None)]]
+    steps.append([r.choice([('yank', None), ('end-of-line', None), ('put', 'z')])])
+    return steps
+
+
+def tmpl_empty_accept(r, lines):
+    # nothing matches, nothing is selected: accept-or-print-query prints the query with status 0,
+    # accept / accept-non-empty behave as documented on an empty list
+    steps = [[(r.choice(['toggle', 'down', 'up']), None)] for _ in range(r.randint(0, 2))]
+    steps.append([('deselect-all', None)] if r.random() < 0.5 else [('clear-selection', None)])
+    steps.append([('change-query', r.choice(['zzqqzz', 'qqqqx', '!!nothing~']))])
+    steps.append([(r.choice(['accept-or-print-query', 'accept-or-print-query', 'accept-or-print-query', 'accept', 'accept-non-empty']), None)])
+    return steps
+
+
+def tmpl_pick_then_all(r, lines):
+    # items picked by hand in an order different from list order, then select-all, then accept:
+    # the hand-picked ones come first, in pick order
+    n = len(lines)
+    picks = r.sample(range(n), min(n, r.randint(2, 3)))
+    if picks == sorted(picks):
+        picks.reverse()
+    steps = [[('pos', str(i + 1)), (r.choice(['select', 'toggle']), None)] for i in picks]
+    steps.append([(r.choice(['select-all', 'select-all', 'toggle-all']), None)])
+    if r.random() < 0.3:
+        steps.append([('select-all', None)])
+    steps.append([('accept', None)])
+    return steps
+
+
 def tmpl_burst(r, lines):
     # several selections inside one action list: selection order must still be the order of the toggles
     acts = []
@@ -189,9 +228,13 @@ def gen_session(r, tier, force=None):
             opts['track'] = 1
             if len(lines) < 5:
                 lines += [r.choice(WORDS) for _ in range(6)]
-        if tmpl in (tmpl_kill_ring, tmpl_hidden_input):
+        if tmpl in (tmpl_kill_ring, tmpl_hidden_input, tmpl_kill_line, tmpl_empty_accept):
             opts['noinput'] = 0
-        if tmpl not in (tmpl_kill_ring, tmpl_hidden_input) and opts['multi'] == 0:
+        if tmpl is tmpl_pick_then_all:
+            opts['multi'], opts['tac'], opts['noinput'] = 1000, 0, 0
+            if len(lines) < 4:
+                lines += [r.choice(WORDS) for _ in range(5)]
+        if tmpl not in (tmpl_kill_ring, tmpl_hidden_input, tmpl_kill_line) and opts['multi'] == 0:
             opts['multi'] = r.choice([2, 3, 1000])
         if tmpl is tmpl_exclude_keeps:
             opts['tac'] = 0
@@ -203,7 +246,7 @@ def gen_session(r, tier, force=None):
             opts['tac'], opts['nosort'] = 0, 0
             if opts['multi'] < 3:
                 opts['multi'] = r.choice([3, 1000])
-        if tmpl in (tmpl_exclude_keeps, tmpl_selection):
+        if tmpl in (tmpl_exclude_keeps, tmpl_selection, tmpl_pick_then_all, tmpl_kill_line, tmpl_empty_accept):
             # these templates pick items by their position in the unfiltered list
             opts['noinput'] = 0
             steps = tmpl(r, lines) + steps[:r.randint(0, 3)]
@@ -306,8 +349,9 @@ def drv_sessions(tier, seed, ctx):
     n = 40 if tier == 'quick' else 600
     r = random.Random(seed * 104729 + 7)
     # every directed template is used by at least three sessions of any run
-    tm = [tmpl_selection, tmpl_kill_ring, tmpl_burst, tmpl_track, tmpl_exclude_keeps, tmpl_hidden_input]
-    scs = [gen_session(r, tier, force=tm[i % len(tm)] if i < 3 * len(tm) else None) for i in range(n)]
+    tm = [tmpl_selection, tmpl_kill_ring, tmpl_burst, tmpl_track, tmpl_exclude_keeps, tmpl_hidden_input, tmpl_kill_line, tmpl_empty_accept,
+          tmpl_pick_then_all]
+    scs = [gen_session(r, tier, force=tm[i % len(tm)] if i < 3 * len(tm) else None) for i in range(max(n, 3 * len(tm) + 16))]
     notes = []
 
     def work(sc):
